@@ -10,6 +10,7 @@ import (
 	"reflect"
 	"sort"
 	"strings"
+	"sync"
 
 	apifu "github.com/ccbrown/api-fu"
 	"github.com/ccbrown/api-fu/graphql"
@@ -61,7 +62,11 @@ type world struct {
 	orig    *Spec // expanded original spec
 	F       map[string]bool
 	respect bool // abstract fields only ever resolve to objects of types visible under F
-	log     []string
+	// force, when set, makes every abstract field resolve to an object of exactly this type, every
+	// list have one item, and nothing be null or fail (used to observe type resolution)
+	force string
+	mu    sync.Mutex
+	log   []string
 }
 
 func h64(parts ...interface{}) uint64 {
@@ -116,6 +121,10 @@ func (w *world) value(t *tref, h uint64, nonNull bool) (interface{}, error) {
 	case 2:
 		return w.value(t.inner, h, true)
 	case 1:
+		if w.force != "" {
+			v, err := w.value(t.inner, h64(h, "item", 0), true)
+			return []interface{}{v}, err
+		}
 		if !nonNull && h%11 == 0 {
 			return nil, nil
 		}
@@ -130,10 +139,12 @@ func (w *world) value(t *tref, h uint64, nonNull bool) (interface{}, error) {
 		}
 		return out, nil
 	}
-	if !nonNull && h%9 == 0 {
+	if w.force != "" {
+		nonNull = true
+	} else if !nonNull && h%9 == 0 {
 		return nil, nil
 	}
-	if nonNull && h%31 == 0 {
+	if w.force == "" && nonNull && h%31 == 0 {
 		return nil, nil // a non-null field resolving to null: the error path
 	}
 	switch t.name {
@@ -163,6 +174,9 @@ func (w *world) value(t *tref, h uint64, nonNull bool) (interface{}, error) {
 	case "object":
 		return &obj{typ: ts.Name, id: h >> 8}, nil
 	case "interface", "union":
+		if w.force != "" {
+			return &obj{typ: w.force, id: h >> 8}, nil
+		}
 		c := w.candidates(ts.Name)
 		if len(c) == 0 {
 			return nil, nil
@@ -180,11 +194,17 @@ func canonArgs(v interface{}) string {
 	return string(b)
 }
 
+func (w *world) logCall(s string) {
+	w.mu.Lock()
+	w.log = append(w.log, s)
+	w.mu.Unlock()
+}
+
 func (w *world) resolver(parent string, f *FieldSpec) func(graphql.FieldContext) (interface{}, error) {
 	t := parseType(f.Type)
 	name := f.Name
 	return func(ctx graphql.FieldContext) (interface{}, error) {
-		w.log = append(w.log, parent+"."+name)
+		w.logCall(parent + "." + name)
 		var id uint64
 		switch o := ctx.Object.(type) {
 		case *obj:
@@ -193,7 +213,7 @@ func (w *world) resolver(parent string, f *FieldSpec) func(graphql.FieldContext)
 			id = uint64(o.i) + 77
 		}
 		h := h64(w.seed, parent, name, id, canonArgs(ctx.Arguments))
-		if h%17 == 0 {
+		if w.force == "" && h%17 == 0 {
 			return nil, fmt.Errorf("boom %d", h%1000)
 		}
 		return w.value(t, h64(h, "v"), false)
@@ -226,10 +246,23 @@ var builtinTypes = map[string]gschema.NamedType{
 // spec cannot even be expressed with the library's Go types (dangling reference, wrong kind in an
 // interface / member list, duplicate name); any other error is schema.New's rejection.
 func buildSchema(spec *Spec, w *world) (b *built, err error) {
+	def, named, err := buildDefinition(spec, w)
+	if err != nil {
+		return nil, err
+	}
+	s, err := graphql.NewSchema(def)
+	if err != nil {
+		return nil, err
+	}
+	return &built{schema: s, named: named}, nil
+}
+
+// buildDefinition constructs the library's type objects for a spec (no schema.New yet).
+func buildDefinition(spec *Spec, w *world) (def *graphql.SchemaDefinition, named map[string]gschema.NamedType, err error) {
 	defer func() {
 		if p := recover(); p != nil {
 			if be, ok := p.(*buildError); ok {
-				b, err = nil, be
+				def, named, err = nil, nil, be
 				return
 			}
 			panic(p)
@@ -237,7 +270,7 @@ func buildSchema(spec *Spec, w *world) (b *built, err error) {
 	}()
 	fail := func(format string, a ...interface{}) { panic(&buildError{fmt.Sprintf(format, a...)}) }
 
-	named := map[string]gschema.NamedType{}
+	named = map[string]gschema.NamedType{}
 	for _, t := range spec.Types {
 		if _, dup := named[t.Name]; dup {
 			fail("duplicate type name %s", t.Name)
@@ -385,7 +418,7 @@ func buildSchema(spec *Spec, w *world) (b *built, err error) {
 				})
 				inner := def.Resolve
 				def.Resolve = func(ctx graphql.FieldContext) (interface{}, error) {
-					w.log = append(w.log, parent+"."+fname)
+					w.logCall(parent + "." + fname)
 					return inner(ctx)
 				}
 				return def
@@ -436,7 +469,7 @@ func buildSchema(spec *Spec, w *world) (b *built, err error) {
 	if !ok {
 		fail("query type %q is not an object", spec.Query)
 	}
-	def := &graphql.SchemaDefinition{
+	def = &graphql.SchemaDefinition{
 		Query:           q,
 		AdditionalTypes: additional,
 		Directives:      map[string]*graphql.DirectiveDefinition{"include": graphql.IncludeDirective, "skip": graphql.SkipDirective},
@@ -448,9 +481,5 @@ func buildSchema(spec *Spec, w *world) (b *built, err error) {
 		}
 		def.Mutation = m
 	}
-	s, err := graphql.NewSchema(def)
-	if err != nil {
-		return nil, err
-	}
-	return &built{schema: s, named: named}, nil
+	return def, named, nil
 }
